@@ -635,16 +635,22 @@ static std::string run(const Sx& c) {
     delete g; delete h;
   } else if (kind == 5) {
     // which covariance types have a range / a third parameter: ((type hasRange hasParam) ...)
-    space(2);
-    CovContext ctxt(1, 2);
+    // (a type that cannot be created in a Euclidean context of dimension 1, 2 or 3 is left out)
     o << "(";
     auto it = ECov::getIterator(); bool first = true;
     while (it.hasNext()) {
       ECov t = *it; it.toNext();
       if (t == ECov::UNKNOWN || t == ECov::FUNCTION) continue;
-      CovAniso cv(t, ctxt);
-      if (!first) o << " "; first = false;
-      o << "(" << t.getValue() << " " << (cv.hasRange() ? 1 : 0) << " " << (cv.hasParam() ? 1 : 0) << ")";
+      for (int nd = 2; nd != 4; nd = (nd == 2 ? 1 : (nd == 1 ? 3 : 4))) {
+        try {
+          space(nd);
+          CovContext ctxt(1, nd);
+          CovAniso cv(t, ctxt);
+          if (!first) o << " "; first = false;
+          o << "(" << t.getValue() << " " << (cv.hasRange() ? 1 : 0) << " " << (cv.hasParam() ? 1 : 0) << ")";
+          break;
+        } catch (...) { }
+      }
     }
     o << ")";
   } else return "(-996 1)";
